@@ -100,7 +100,7 @@ static unsigned long junk_seed = 1;
 static int junk_pat;
 static long max_events = 200000, max_lex = 100000;
 static int realloc_moves = 1;
-static int allow_mask; /* bit0: %array yyless after yymore; bit1: buffer switch in yywrap with yymore pending; bit2: yyinput() again after it reported end of input */
+static int allow_mask; /* bit0: %array yyless after yymore; bit1: buffer switch in yywrap with yymore pending; bit2: yyinput() again after it reported end of input; bit3: return to an in-memory buffer that was scanned to its end */
 
 static const sim_scanner_vt *scanners[32];
 static int nscanners;
@@ -529,6 +529,7 @@ static int buf_new(sim_inst *I, void *b, int src, void *usermem)
 	I->bufs[h].src = src;
 	I->bufs[h].onstack = 0;
 	I->bufs[h].usermem = usermem;
+	I->bufs[h].exhausted = 0;
 	return h;
 }
 static void model_switch(sim_inst *I, int h)
@@ -618,6 +619,7 @@ static int pick_buf(sim_inst *I, long k, int mode)
 			continue;
 		if (mode == PK_OFFSTACK_OR_CUR && I->bufs[i].onstack && i != cur)
 			continue;
+
 		cand[n++] = i;
 	}
 	if (!n)
@@ -687,16 +689,12 @@ static int resolve(sim_inst *I, const plan_op *po, sim_xop *x, int in_action)
 		 * documented combination: never generated */
 		if (!in_action || I->is_eof || I->did_bufop || I->did_more)
 			return 0;
-		if (I->input_eof && !(allow_mask & 4))
-			return 0;
 		x->a = po->a & 0xff;
 		return 1;
 	case SOP_INPUT:
 		if (!in_action || I->is_eof || I->did_bufop || I->did_more)
 			return 0;
-		/* known finding K-input-again-at-eof, probed separately */
-		if (I->input_eof && !(allow_mask & 4))
-			return 0;
+
 		return 1;
 	case SOP_MORE:
 		if (!in_action || I->is_eof || I->did_bufop || I->did_textop || !vt->has_yymore)
@@ -739,6 +737,10 @@ static int resolve(sim_inst *I, const plan_op *po, sim_xop *x, int in_action)
 	case SOP_SWITCH:
 		h = pick_buf(I, po->a, PK_OFFSTACK_OR_CUR);
 		if (h < 0)
+			return 0;
+		/* from yywrap / an <<EOF>> action a switch to the buffer that is
+		 * already current supplies no new input */
+		if (in_action && I->is_eof && I->depth && I->stack[I->depth - 1] == h)
 			return 0;
 		x->h = h;
 		x->p = I->bufs[h].b;
@@ -786,6 +788,10 @@ static int resolve(sim_inst *I, const plan_op *po, sim_xop *x, int in_action)
 	case SOP_SCAN_BUFFER:
 		return 1;
 	case SOP_RESTART:
+		/* pointing an in-memory (yy_scan_*) buffer at a stream is not a
+		 * documented use of yyrestart / yyin */
+		if (I->depth > 0 && I->bufs[I->stack[I->depth - 1]].src == -1)
+			return 0;
 		if (po->a & 1) {
 			/* restart on the stream the current buffer already has */
 			x->h = -1;
@@ -796,6 +802,8 @@ static int resolve(sim_inst *I, const plan_op *po, sim_xop *x, int in_action)
 	case SOP_SET_YYIN:
 	case SOP_NEWFILE:
 		if (po->code == SOP_NEWFILE && !(in_action && I->is_eof))
+			return 0;
+		if (I->depth > 0 && I->bufs[I->stack[I->depth - 1]].src == -1)
 			return 0;
 		/* the caller may point yyin elsewhere before the first yylex call,
 		 * after yylex returned 0, or from yywrap / an <<EOF>> action */
@@ -963,7 +971,10 @@ int sim_wrap_next(sim_xop *x)
 {
 	sim_inst *I = sim_cur;
 	instx *X = IX(I);
+	int cur_mem = I->depth > 0 && I->bufs[I->stack[I->depth - 1]].src == -1;
 	sim_yield();
+	if (cur_mem)
+		I->bufs[I->stack[I->depth - 1]].exhausted = 1;
 	while (X->wrap_pos < X->wraps.n) {
 		plan_op *po = &X->wraps.v[X->wrap_pos++];
 		int save_in = I->in_action, save_eof = I->is_eof;
@@ -979,6 +990,7 @@ int sim_wrap_next(sim_xop *x)
 		I->is_eof = 1;
 		if (po->code == SOP_POP_BUF && I->depth < 2)
 			ok = 0;
+
 		else if (I->prev_more && (po->code == SOP_PUSHNEW || po->code == SOP_SWITCHNEW) && !(allow_mask & 2))
 			/* a yymore() is pending at the end of the source: leaving the
 			 * buffer now and coming back later yields a phantom NUL token
